@@ -13,9 +13,13 @@ var tsAlphabet = []uint64{0, 1, 5, 999999, 1000000, 1000001, 2000000, 2000001, 1
 	1<<48 - 1000001, 1<<48 - 1000000, 1<<48 - 1}
 
 func signedWithTs(key *frame.V2Key, seq byte, ts uint64) []byte {
-	f := &frame.V2Frame{IncompatibilityFlag: 1, SequenceNumber: seq, SystemID: 7, ComponentID: 9,
+	return signedFrom(key, seq, ts, 7, 9, 3)
+}
+
+func signedFrom(key *frame.V2Key, seq byte, ts uint64, sys, comp, link byte) []byte {
+	f := &frame.V2Frame{IncompatibilityFlag: 1, SequenceNumber: seq, SystemID: sys, ComponentID: comp,
 		Message: &message.MessageRaw{ID: 300, Payload: []byte{seq}}, Checksum: 0x1234,
-		SignatureLinkID: 3, SignatureTimestamp: ts}
+		SignatureLinkID: link, SignatureTimestamp: ts}
 	f.Signature = f.GenerateSignature(key)
 	bs, _ := writeFrame(nil, f)
 	return bs
@@ -81,6 +85,52 @@ func genC07(o *hx.Out, tier string) {
 			seq[j] = cur
 		}
 		run("random-walk", seq)
+	}
+	// the same reader hears several senders (system, component and link ids differ): it remembers ONE
+	// newest timestamp, whoever sent it
+	senders := [][3]byte{{7, 9, 3}, {8, 9, 3}, {7, 1, 3}, {7, 9, 4}, {255, 255, 255}, {0, 0, 0}}
+	runFrom := func(class string, seq []uint64, who []int) {
+		var all []byte
+		for i, ts := range seq {
+			sd := senders[who[i]]
+			all = append(all, signedFrom(key, byte(i), ts, sd[0], sd[1], sd[2])...)
+		}
+		cs := one(all)
+		o.Add(class, hx.ReadAll(cs, nil, key, nil), "fread", "-", hx.Hex(key[:]), hx.ChunksText(cs))
+	}
+	for _, a := range tsAlphabet {
+		for _, b := range tsAlphabet {
+			for w := 1; w < 4; w++ {
+				runFrom("two-senders", []uint64{a, b}, []int{0, w})
+			}
+		}
+	}
+	ns := 150
+	if tier == "thorough" {
+		ns = 3000
+	}
+	for i := 0; i < ns; i++ {
+		n := 3 + r.Intn(8)
+		seq := make([]uint64, n)
+		who := make([]int, n)
+		cur := uint64(r.Intn(5000000))
+		for j := range seq {
+			switch r.Intn(4) {
+			case 0:
+				cur += uint64(r.Intn(3000000))
+			case 1:
+				d := uint64(r.Intn(3000000))
+				if d > cur {
+					d = cur
+				}
+				cur -= d
+			case 2:
+				cur = tsAlphabet[r.Intn(len(tsAlphabet))]
+			}
+			seq[j] = cur
+			who[j] = r.Intn(len(senders))
+		}
+		runFrom("several-senders", seq, who)
 	}
 	// forged frames (signed with another key, often dated far ahead) interleaved with genuine ones:
 	// only authenticated frames may move the window
